@@ -71,12 +71,22 @@ def ev(v, val, hooks=None):
                 raise Raised('OverflowError')
             except TypeError:
                 raise Raised('TypeError')
+            except (CannotEval, Raised):
+                raise
+            except Exception as e:
+                # operators of library values (netaddr, datetime, packaging)
+                # raise what the library decides
+                raise Raised(type(e).__name__)
         if op == 'cmp':
             x, y = ev(a[1], val, hooks), ev(a[2], val, hooks)
             try:
                 return _CMP[a[0]](x, y)
             except TypeError:
                 raise Raised('TypeError')
+            except (CannotEval, Raised):
+                raise
+            except Exception as e:
+                raise Raised(type(e).__name__)
         if op == 'not':
             return not ev(a[0], val, hooks)
         if op == 'regex' and isinstance(a[0], (str, bytes)):
